@@ -3,7 +3,8 @@
    binder of C05 (Binder/Bind.v, `Signature.bind_arguments`); checking the bound
    arguments against the declared types is the call model of C06
    (Call/Model.v, `check_call_preprocessed`), instantiated with the annotation
-   values of this model as its value type.  No proofs in this file. *)
+   values of this model as its value type: every declared type is a closed type
+   expression `TTy t` of that model, and its literal None is TNone.  No proofs in this file. *)
 From Coq Require Import NArith List Bool.
 Import ListNotations.
 Require Import PV.Annot.Forms PV.Annot.Routes PV.Annot.DefSig.
@@ -63,7 +64,7 @@ Section Checked.
   Definition cparam_of (tys : list (N * tval)) (e : N * pkind * bool) : @Call.Model.cparam tval :=
     let '(n, k, d) := e in
     Call.Model.mk_cparam (bparam e)
-      (match lookup tys n with Some t => Call.Model.AnnTy (elem_type k t) | None => Call.Model.AnnNone end)
+      (match lookup tys n with Some t => Call.Model.AnnE (Call.Model.TTy (elem_type k t)) | None => Call.Model.AnnNone end)
       None.
 
   Definition to_csig (l : list sparam) (tys : list (N * tval)) (ret : tval) : @Call.Model.csig tval :=
@@ -71,7 +72,7 @@ Section Checked.
 
   (* diagnostics (incompatible_call / incompatible_argument / ...) and result type of one call *)
   Definition check_in_defining_scope (ps : list param) (r : option aexpr) (c : @Call.Model.ccall tval) :=
-    Call.Model.check_call O limit (to_csig (sig_from_def ps) (decl_table def_type ps) (ret_from_def r)) c.
+    Call.Model.check_call O limit TNone (to_csig (sig_from_def ps) (decl_table def_type ps) (ret_from_def r)) c.
   Definition check_from_importer (ps : list param) (r : option aexpr) (c : @Call.Model.ccall tval) :=
-    Call.Model.check_call O limit (to_csig (sig_from_runtime ps) (decl_table rt_type ps) (ret_from_runtime r)) c.
+    Call.Model.check_call O limit TNone (to_csig (sig_from_runtime ps) (decl_table rt_type ps) (ret_from_runtime r)) c.
 End Checked.
